@@ -4,7 +4,7 @@
    the one-byte length field), and that the writer's header is one the reader accepts.
    The whole-ontology round trip `decode (encode o) = Ok o'` with `o'` observationally equal to `o`
    is decided by the correspondence run and spec_C07; it is not yet a theorem. *)
-From HpoV Require Import Gen.Consts Model.Base Model.Onto Model.Binary Proofs.BinaryP.
+From HpoV Require Import Gen.Consts Model.Base Model.Group Model.Onto Model.Binary Proofs.GroupP Proofs.BinaryP Proofs.CodecP.
 
 Theorem C07_u32_roundtrip : forall n rest, n < 4294967296 -> u32_at (to_be32 n ++ rest) 0 = Ok n.
 Proof. exact u32_at_to_be32. Qed.
@@ -21,8 +21,42 @@ Proof. exact name_limits_fit_one_byte. Qed.
 Theorem C07_header_accepted : mem EMIT_VERSION ACCEPTED_VERSIONS = true /\ MAGIC_WRITER = MAGIC_READER.
 Proof. exact writer_version_accepted. Qed.
 
+(* ---- record-level round trips (what the writer emits for one record is read back as that record) ---- *)
+
+Theorem C07_term_record_roundtrip : forall t rest,
+  t_id t < 4294967296 -> repl_ok (t_repl t) -> utf8_valid (cut_name TERM_NAME_LIMIT (t_name t)) = true ->
+  u32_at (enc_term t ++ rest) 0 = Ok (Nlen (enc_term t)) /\
+  term_v2 (enc_term t ++ rest) =
+    Ok (set_flags (t_obsolete t) (t_repl t) (new_term (cut_name TERM_NAME_LIMIT (t_name t)) (t_id t))).
+Proof. exact term_record_roundtrip. Qed.
+
+Theorem C07_gene_record_roundtrip : forall r,
+  a_id r < 4294967296 -> Forall (fun x => x < 4294967296) (a_hpos r) -> Nlen (a_hpos r) < 1000000000 ->
+  sorted (a_hpos r) -> utf8_valid (cut_name GENE_NAME_LIMIT (a_name r)) = true ->
+  gene_of_bytes (enc_gene r) = Ok (mkAnnot (a_id r) (cut_name GENE_NAME_LIMIT (a_name r)) (a_hpos r)).
+Proof. exact gene_record_roundtrip. Qed.
+
+Theorem C07_disease_record_roundtrip : forall r,
+  a_id r < 4294967296 -> Forall (fun x => x < 4294967296) (a_hpos r) -> Nlen (a_hpos r) < 500000000 ->
+  Nlen (a_name r) < 1000000000 -> sorted (a_hpos r) -> utf8_valid (a_name r) = true ->
+  disease_of_bytes (enc_disease r) = Ok (mkAnnot (a_id r) (a_name r) (a_hpos r)).
+Proof. exact disease_record_roundtrip. Qed.
+
+(* a valid UTF-8 name cut at a char boundary is valid UTF-8 (what the fix of F6 relies on), and a
+   name within the limit is not cut at all *)
+Theorem C07_cut_name_stays_valid : forall limit name, utf8_valid name = true ->
+  is_char_boundary name (cut_len limit name) = true -> utf8_valid (cut_name limit name) = true.
+Proof. exact cut_name_valid. Qed.
+Theorem C07_short_name_not_cut : forall limit name, Nlen name <= limit -> cut_name limit name = name.
+Proof. exact cut_name_fits. Qed.
+
 Print Assumptions C07_u32_roundtrip.
 Print Assumptions C07_name_cut_bounds.
 Print Assumptions C07_name_cut_identity.
 Print Assumptions C07_name_limits_fit_one_byte.
 Print Assumptions C07_header_accepted.
+Print Assumptions C07_term_record_roundtrip.
+Print Assumptions C07_gene_record_roundtrip.
+Print Assumptions C07_disease_record_roundtrip.
+Print Assumptions C07_cut_name_stays_valid.
+Print Assumptions C07_short_name_not_cut.
